@@ -83,7 +83,7 @@ func arr32(b []byte) (a [32]byte) { copy(a[:], b); return }
 func emits(kind string) bool {
 	switch kind {
 	case "field", "txn", "user", "account", "fnwi", "infofork", "ffo", "fileheader", "nald", "newsartlist",
-		"newscat15", "trackerreg", "resume", "time", "handshake":
+		"newscat15", "trackerreg", "resume", "time", "handshake", "listing":
 		return true
 	}
 	return false
@@ -236,6 +236,11 @@ func buildReader(s script) (r io.Reader, pmsg string) {
 		rw := &hsConn{in: bytes.NewReader(bytesOfInts(s.Fed))}
 		_ = hotline.VerifPerformHandshake(rw)
 		return bytes.NewReader(rw.out.Bytes()), ""
+	case "listing":
+		// the tracker listing client: what it sends before it reads the (specification's) reply
+		rw := &hsConn{in: bytes.NewReader(bytesOfInts(s.Fed))}
+		_, _ = hotline.GetListing(rw)
+		return bytes.NewReader(rw.out.Bytes()), ""
 	}
 	panic("no encoder for kind " + s.Kind)
 }
@@ -247,6 +252,7 @@ type hsConn struct {
 
 func (h *hsConn) Read(p []byte) (int, error)  { return h.in.Read(p) }
 func (h *hsConn) Write(p []byte) (int, error) { return h.out.Write(p) }
+func (h *hsConn) Close() error                { return nil }
 
 func buildInfoFork(o map[string]any) hotline.FlatFileInformationFork {
 	ff := hotline.NewFlatFileInformationFork(string(oBytes(o, "name")), arr8(oBytes(o, "mdate")),
@@ -290,6 +296,11 @@ func canonPath(fp *hotline.FilePath) map[string]any {
 		segs = append(segs, map[string]any{"len": int(it.Len), "name": sim.Ints(it.Name)})
 	}
 	return map[string]any{"count": be16(fp.ItemCount), "segs": segs}
+}
+
+func canonServer(s *hotline.ServerRecord) map[string]any {
+	return map[string]any{"ip": sim.Ints(s.IPAddr[:]), "port": be16(s.Port), "users": be16(s.NumUsers), "nsize": int(s.NameSize),
+		"name": sim.Ints(s.Name), "dsize": int(s.DescriptionSize), "desc": sim.Ints(s.Description)}
 }
 
 // decode runs the real decoder number `which` of the kind on b.  ok=false: the kind has no such decoder.
@@ -447,13 +458,32 @@ func decode(kind string, b []byte, which int) (d map[string]any, msg string, has
 		var b4 [4]byte
 		binary.BigEndian.PutUint32(b4[:], uint32(v))
 		return ok(map[string]any{"v": sim.Ints(b4[:])}), "", true
+	case "listing":
+		srvs, err := hotline.GetListing(&hsConn{in: bytes.NewReader(in)})
+		if err != nil {
+			return fail(err)
+		}
+		out := []any{}
+		for _, s := range srvs {
+			out = append(out, canonServer(&s))
+		}
+		return ok(map[string]any{"servers": out}), "", true
+	case "flatfile":
+		// the receiving side of a flattened file: header, INFO fork, DATA fork, optional MACR fork header + content
+		var data, rsrc, info bytes.Buffer
+		if err := hotline.VerifReceiveFile(bytes.NewReader(in), &data, &rsrc, &info, io.Discard); err != nil {
+			return fail(err)
+		}
+		return ok(map[string]any{"info": sim.Ints(info.Bytes()), "data": sim.Ints(data.Bytes()), "rsrc": sim.Ints(rsrc.Bytes())}), "", true
+	case "obfstr":
+		f := hotline.NewField(hotline.FieldUserLogin, in)
+		return ok(map[string]any{"s": sim.Ints([]byte(f.DecodeObfuscatedString()))}), "", true
 	case "serverrecord":
 		var s hotline.ServerRecord
 		if _, err := s.Write(in); err != nil {
 			return fail(err)
 		}
-		return ok(map[string]any{"ip": sim.Ints(s.IPAddr[:]), "port": be16(s.Port), "users": be16(s.NumUsers), "nsize": int(s.NameSize),
-			"name": sim.Ints(s.Name), "dsize": int(s.DescriptionSize), "desc": sim.Ints(s.Description)}), "", true
+		return ok(canonServer(&s)), "", true
 	}
 	return nil, "", false
 }
